@@ -136,6 +136,10 @@ func (e *Engine) designatorHeaps(c *Contract, f *types.Func, d string) (map[stri
 		out["H:big"] = "(Array Int Int)"
 		return out, nil
 	}
+	if d == "streams" || (strings.HasPrefix(d, "stream(") && strings.HasSuffix(d, ")")) {
+		out[streamHeap] = streamSort
+		return out, nil
+	}
 	// expression designators: type them statically via the parameter types
 	x, err := parser.ParseExpr(d)
 	if err != nil {
@@ -253,7 +257,7 @@ func (fr *Frame) havocDesignator(s, pre *State, c *Contract, f *types.Func, d st
 		fr.havocEverything(s)
 		return nil
 	}
-	if strings.HasPrefix(d, "heap(") || d == "big" || strings.HasPrefix(d, "mapof(") {
+	if strings.HasPrefix(d, "heap(") || d == "big" || d == "streams" || strings.HasPrefix(d, "mapof(") {
 		hs, err := fr.eng.designatorHeaps(c, f, d)
 		if err != nil {
 			return err
@@ -264,6 +268,19 @@ func (fr *Frame) havocDesignator(s, pre *State, c *Contract, f *types.Func, d st
 		return nil
 	}
 	env := &SpecEnv{eng: fr.eng, vc: fr.vc, s: pre, old: pre, names: names, pkg: cpkg, fr: fr}
+	if strings.HasPrefix(d, "stream(") && strings.HasSuffix(d, ")") {
+		// the ghost byte stream of one writer
+		x, err := parser.ParseExpr(d[7 : len(d)-1])
+		if err != nil {
+			return err
+		}
+		w := env.evalGo(x)
+		if env.err != nil {
+			return env.err
+		}
+		s.setStream(fr.writerKey(w), fr.vc.declare("stream_hv", "(Seq Int)"))
+		return nil
+	}
 	if strings.HasPrefix(d, "elems(") && strings.HasSuffix(d, ")") {
 		// elems(sliceExpr): the backing array of that slice
 		x, err := parser.ParseExpr(d[6 : len(d)-1])
